@@ -308,7 +308,9 @@ impl Distribution<u64> for Hypergeometric {
                 let mut u = rng.random::<f64>();
 
                 // the paper erroneously uses `until n < p`, which doesn't make any sense
-                while u > p && x < k as i64 {
+                // the support ends at min(n1, k): beyond it the pmf is zero
+                let x_max = u64::min(n1, k) as i64;
+                while u > p && x < x_max {
                     u -= p;
                     p *= ((n1 as i64 - x) * (k as i64 - x)) as f64;
                     p /= ((x + 1) * (n2 as i64 - k as i64 + 1 + x)) as f64;
